@@ -11,7 +11,7 @@
    the total, for delta and cumulative readers, over every iteration order of the tables; with the deviations
    of the unchanged tree every broken clause goes through a listed deviation.
 3. spec -> code / code -> spec: TLC behaviours (witnesses for every rare step incl. "cumulative merge while
-   the overflow series exists", all behaviours to a small depth, random walks, shortest counterexamples of
+   the overflow series exists", one behaviour per distinct state reached by a Collect within small bounds, random walks, shortest counterexamples of
    the as-implemented model) and long random histories (explicit limits 2..10 through SyncMetricStorage,
    random allow-lists through views, 2100+ distinct sets over several cycles against the default limit
    2000) are executed on the real code; every event log is validated by spec/MetricsSyncTrace.tla, which
